@@ -209,10 +209,16 @@ def judge(pid, units, tier, t0, level, coverage_extra, assumptions, relevant=Non
         rc = 1
     if seen > 12:
         log('... %d more violations of %s (replay files under %s)' % (seen - 12, pid, vdir))
+    drift = others.get('DRIFT', 0)
+    if others.get('DRIFT'):
+        log('DRIFT: %d scenarios did not reach the physical layout the model aimed for (the implementation places elements '
+            'differently than spec/Ring.tla predicts; verdicts are unaffected, layout coverage is reduced)' % others['DRIFT'])
+    others.pop('DRIFT', None)
     if others and rc == 0:
         log('NOTE: clauses of other properties failed in these runs (reported by their own checks): %s' % json.dumps(others))
     cov = {'states': max(states, 1) if level == 'model_checking' else states, 'transitions': max(trans, 1),
            'traces_validated_against_impl': nscen, 'events_validated': nev, 'exhaustive': True}
+    cov['layout_drift_scenarios'] = drift
     cov.update(coverage_extra)
     ev = {'property_id': pid, 'tier': tier, 'seed': seed(), 'level': level, 'coverage': cov, 'assumptions': assumptions,
           'wall_s': round(time.time() - t0, 2), 'violations': seen,
